@@ -161,4 +161,94 @@ theorem parse2_o2o_list (items : List (String × Option TS)) (hk : ∀ e ∈ ite
   | ok xs => simp
 
 end
+/-! ### the attribute loop of `get_data_type_attrs` -/
+
+/-- the bare spelling `#[name(args)]` / `#[name]` of one list element -/
+def bareAttr (e : String × Option TS) : RawAttr :=
+  ⟨[.ident e.1], match e.2 with | some ts => .list .paren ts | none => .path⟩
+
+/-- the grouped spelling `#[o2o(e1, e2, ..)]` -/
+def groupAttr (items : List (String × Option TS)) : RawAttr := ⟨[.ident "o2o"], .list .paren (o2oTokens items)⟩
+
+def DataTypeInstruction.isAllowUnknown : DataTypeInstruction → Bool
+  | .allowUnknown => true
+  | _ => false
+
+/-- the loop is a left fold over the attributes: what an attribute contributes depends only on what came before it -/
+theorem collect_append (b : Back) (xs ys : List RawAttr) (acc : DTAcc) :
+    collectDataTypeInstrs b (xs ++ ys) acc = (collectDataTypeInstrs b xs acc).bind (collectDataTypeInstrs b ys) := by
+  induction xs generalizing acc with
+  | nil => rfl
+  | cons x rest ih =>
+    simp only [List.cons_append]
+    unfold collectDataTypeInstrs
+    split
+    · exact ih acc
+    · simp only [bind, Except.bind]
+      split
+      · rfl
+      · split
+        · rfl
+        · exact ih _
+    · simp only [bind, Except.bind]
+      split
+      · rfl
+      · split
+        · rfl
+        · exact ih _
+    · exact ih acc
+
+/-- the grouped attribute appends the whole parsed list — every element, in the written order — and turns the
+    `allow_unknown` switch off for the attributes that follow when (and only when) one of its elements is the switch -/
+theorem collect_group (b : Back) (items : List (String × Option TS)) (rest : List RawAttr) (acc : DTAcc)
+    (hk : ∀ e ∈ items, isKeyword b e.1 = false) :
+    collectDataTypeInstrs b (groupAttr items :: rest) acc =
+      (match allResults (fun instr c => parseDataTypeInstruction b instr c true true) items with
+       | .ok xs => collectDataTypeInstrs b rest
+           { instrs := acc.instrs ++ xs, bark := if xs.any DataTypeInstruction.isAllowUnknown then false else acc.bark }
+       | .error e => .error e) := by
+  rw [collectDataTypeInstrs]
+  have hid : (groupAttr items).ident? = some "o2o" := rfl
+  rw [hid]
+  simp only [bind, Except.bind]
+  have htok : o2oArgTokens (groupAttr items) = .ok (o2oTokens items) := rfl
+  rw [htok]
+  simp only []
+  rw [parse2_o2o_list b _ items hk]
+  cases allResults (fun instr c => parseDataTypeInstruction b instr c true true) items with
+  | error err => rfl
+  | ok xs =>
+    simp only []
+    have key : ∀ (f : DataTypeInstruction → Bool), (∀ i, f i = i.isAllowUnknown) →
+        xs.any f = xs.any DataTypeInstruction.isAllowUnknown := by
+      intro f hf
+      congr
+      funext i
+      exact hf i
+    rw [key _ (fun i => by cases i <;> rfl)]
+
+/-- nothing is dropped from a list: the result has one instruction per element, the k-th one built from the k-th element -/
+theorem allResults_get {α : Type} (f : String → TS → Except PErr α) (items : List (String × Option TS)) (xs : List α)
+    (h : allResults f items = .ok xs) :
+    xs.length = items.length ∧ ∀ k (hk : k < items.length) (hk' : k < xs.length), elemResult f items[k] = .ok xs[k] := by
+  induction items generalizing xs with
+  | nil => simp [allResults] at h; subst h; simp
+  | cons e rest ih =>
+    simp only [allResults] at h
+    cases he : elemResult f e with
+    | error err => simp [he] at h
+    | ok x =>
+      simp only [he] at h
+      cases hr : allResults f rest with
+      | error err => simp [hr] at h
+      | ok ys =>
+        simp only [hr] at h
+        cases h
+        obtain ⟨hl, hg⟩ := ih ys hr
+        refine ⟨by simp [hl], ?_⟩
+        intro k hk hk'
+        cases k with
+        | zero => simpa using he
+        | succ k => simpa using hg k (by simpa using hk) (by simpa using hk')
+
 end O2o
